@@ -697,5 +697,44 @@ pub fn stress_supplement(report: &mut Report, seconds: f64) {
     if let Some(m) = msg {
         report.violation("cache|stress-supplement|hit after remove".to_string(), m, json!({"engine":"c16-stress"}));
     }
-    report.set("sampling_supplement", json!({"rounds": rounds.load(Ordering::Relaxed), "threads": 4, "keys_in_one_bucket": 12, "note": "free-running threads, not exhaustive, not counted in states/transitions"}));
+    // second phase: clear() walking the buckets while two threads insert and remove keys spread over many
+    // buckets; once everybody has stopped, the reported memory must be the total of the entries held
+    let stats2 = Arc::new(Statistics::new());
+    let cache2 = ClockCache::new(stats2.clone());
+    let dl2 = Deadline::new(seconds * 0.4);
+    let clears = AtomicU64::new(0);
+    let spread: Vec<Vec<u8>> = (0..2048u32).map(|i| format!("spread-{i}").into_bytes()).collect();
+    std::thread::scope(|sc| {
+        for t in 0..2usize {
+            let (cache2, spread, dl2) = (&cache2, &spread, &dl2);
+            sc.spawn(move || {
+                let mut i = t;
+                while !dl2.expired() {
+                    let k = &spread[i % spread.len()];
+                    cache2.insert(k.clone(), Bytes::from_static(b"a cached value of some length"));
+                    if i % 3 == 0 {
+                        cache2.remove(&spread[(i / 3) % spread.len()]);
+                    }
+                    i += 2;
+                }
+            });
+        }
+        let (cache2, dl2, clears) = (&cache2, &dl2, &clears);
+        sc.spawn(move || {
+            while !dl2.expired() {
+                cache2.clear();
+                clears.fetch_add(1, Ordering::Relaxed);
+            }
+        });
+    });
+    let held: usize = cache2.verif_entries().iter().map(|e| e.size).sum();
+    let reported = stats2.cache_memory.load(Ordering::Relaxed);
+    if reported != held && report.violations.is_empty() {
+        report.violation(
+            "cache|stress-supplement|accounting after clear".to_string(),
+            format!("C16: after clear() raced inserts and removes and everybody stopped, the cache reports {reported} bytes but holds entries of {held} bytes in total; found by the free-running sampling supplement"),
+            json!({"engine":"c16-stress"}),
+        );
+    }
+    report.set("sampling_supplement", json!({"rounds": rounds.load(Ordering::Relaxed), "threads": 4, "keys_in_one_bucket": 12, "clears_racing_inserts": clears.load(Ordering::Relaxed), "note": "free-running threads, not exhaustive, not counted in states/transitions"}));
 }
